@@ -400,4 +400,11 @@ def rng_sites(ctx):
     return res
 
 
-RULES = [pure, inverted_fresh, no_param_mutation, reset_first, rng_sites]
+def no_stale(ctx):
+    from .common import stale_cache
+    return stale_cache(ctx, 'NO-STALE-STATE',
+                       ['Paraxial', 'Aberrations', 'RayGenerator'],
+                       'a repeated query depends on what was computed before')
+
+
+RULES = [no_stale, pure, inverted_fresh, no_param_mutation, reset_first, rng_sites]
